@@ -1217,6 +1217,14 @@ PAIRS = [
 ]
 
 
+# hand-picked nestings: a Frame squeezed so hard that header + footer ask for every row (render trims them to keep
+# the body visible); a ListBox item with several focusable children
+EXTRA = [
+    ["Frame", ["Frame", "S", "U", "U"], ["Frame", "U", None, None], ["Frame", "U", None, None]],
+    ["ListBox", "F", [["Pile", ["E", "S"]], "U"]],
+]
+
+
 def _small_flat(quick=False):
     out = []
     for t in flat_trees():
@@ -1255,13 +1263,15 @@ def _tasks(tier, seed):
             ex(t, "AB"[i % 2], "F" if i % 4 == 0 else "R")
         for i, t in enumerate(d3[::3]):
             ex(t, "AB"[i % 2], "R")
+        for t in EXTRA:
+            ex(t, "A", "F")
         for i in range(16):
             tasks.append((("random", seed * 1000 + i, 3, 3, 4), 2000))
         bound = (
             f"{len(flat)} flat containers (0-3 leaves S/U; Frame with/without header/footer; Overlay): every single operation of the full alphabet, modes A and B; "
             f"{len(small)} of them (<=2 leaves) and {len(PAIRS)} two-level nestings: all histories of length 2 over the reduced alphabet, one mode each; "
             f"{len(nested)} two-level nestings (13 inner containers x 4 sibling patterns x 5 list containers, Frame parts, Overlay): every single operation (full alphabet for every fourth, reduced otherwise); "
-            f"{len(d3[::3])} three-level nestings: reduced single operations; 48 seeded random depth-3 trees x 3 histories of length 4 (non-exhaustive)"
+            f"{len(d3[::3])} three-level nestings: reduced single operations; {len(EXTRA)} hand-picked nestings: full single operations; 48 seeded random depth-3 trees x 3 histories of length 4 (non-exhaustive)"
         )
     else:
         for t in flat:
@@ -1282,13 +1292,16 @@ def _tasks(tier, seed):
                 ex(t, mode, "F")
             if i % 4 == 0:
                 ex(t, "AB"[(i // 4) % 2], "RO")
+        for t in EXTRA:
+            for mode in "AB":
+                ex(t, mode, "FR")
         for i in range(48):
             tasks.append((("random", seed * 1000 + i, 10, 5, 6), 10**6))
         bound = (
             f"{len(flat)} flat containers (0-3 leaves S/U; Frame parts; Overlay): all histories of length <=2 (full alphabet, then reduced), modes A and B; "
             f"{len(small)} of them (<=2 leaves): all histories of two reduced-alphabet operations followed by one key or click, one mode each; {len(PAIRS)} two-level nestings: length <=2 (full, reduced), both modes; "
             f"{len(nested)} two-level nestings: every single operation of the full alphabet in both modes, every third one also every reduced operation followed by a key or click; "
-            f"{len(d3)} three-level nestings: single operations (full) in both modes, every fourth also reduced operation + key/click; 480 seeded random depth-3 trees x 5 histories of length 6 (non-exhaustive)"
+            f"{len(d3)} three-level nestings: single operations (full) in both modes, every fourth also reduced operation + key/click; {len(EXTRA)} hand-picked nestings: length <=2; 480 seeded random depth-3 trees x 5 histories of length 6 (non-exhaustive)"
         )
     return tasks, bound
 
